@@ -161,43 +161,46 @@ def applyNumeric (ddo : DDO) (n : Node) (e : Enc) : Enc × DDO × Bool :=
       else ({ e2 with ref := r }, ddo1, false)
     else (e2, ddo1, false)
 
+/-- does the associated-field prefix apply to this encoding (first `switch` of
+`bufr_apply_tables2node`) -/
+def afApplies (ddo : DDO) (class31 : Bool) (e : Enc) : Bool :=
+  (e.type = .ccitt || e.type = .numeric || e.type = .codetable || e.type = .flagtable) && !class31 &&
+    decide (ddo.addAfNbits > 0)
+
+def applyAF (ddo : DDO) (class31 : Bool) (e : Enc) : Enc :=
+  if afApplies ddo class31 e then { e with afNbits := ddo.addAfNbits.toNat % 256 } else e
+
+def applyAFList (ddo : DDO) (class31 : Bool) (e : Enc) (naf : List Nat) : List Nat :=
+  if afApplies ddo class31 e then ddo.afList else naf
+
+/-- width / scale / reference (second `switch`) -/
+def applyWidth (ddo : DDO) (n : Node) (class31 : Bool) (e : Enc) : Enc × DDO × Bool :=
+  match e.type with
+  | .ccitt => (if ddo.redefineCcitt > 0 then { e with nbits := (ddo.redefineCcitt : Int) * 8 } else e, ddo, false)
+  | .numeric => if class31 then (e, ddo, false) else applyNumeric ddo n e
+  | _ => (e, ddo, false)
+
+/-- what follows the operator dispatch -/
+def applyTail (ddo1 : DDO) (n : Node) (e1 : Enc) (err1 : Bool) : DDO × Node × Bool :=
+  let class31 := n.flags.class31 || decide (Desc.x n.desc = 31)
+  let e2 := applyAF ddo1 class31 e1
+  let af := applyAFList ddo1 class31 e1 n.af
+  let w := applyWidth ddo1 n class31 e2
+  (w.2.1, { n with flags := { n.flags with class31 := class31 }, enc := w.1, af := af }, err1 || w.2.2)
+
 /-- `bufr_apply_tables2node(ddo, bsq, tmplt, node, &errcode)` for descriptors outside the bitmap
 machinery.  Returns the new state, the node with its encoding recomputed, and `true` when
 `*errcode` was set negative. -/
 def applyTables2node (T : Tables) (edition : Nat) (ddo : DDO) (n : Node) : DDO × Node × Bool :=
-  let f := Desc.f n.desc
-  let x := Desc.x n.desc
-  let y := Desc.y n.desc
-  let flags : Flags := if x = 31 then { n.flags with class31 := true } else n.flags
   let e0 := reassign n.desc (baseEnc T ddo n.desc)
-  -- operators
-  let (ddo1, e1, err1) :=
-    -- an operator flagged SKIPPED sits in a replication that occurs zero times: no effect
-    if f = 2 ∧ !n.flags.skipped then
-      let r := resolveTableC ddo x y edition
-      let e := match r.enc with
-        | some (t, nb) => { e0 with type := t, nbits := nb }
-        | none => e0
-      (r.ddo, e, decide (r.rc < 0))
-    else (ddo, e0, false)
-  let class31 := flags.class31
-  -- associated fields
-  let isData := e1.type = .ccitt ∨ e1.type = .numeric ∨ e1.type = .codetable ∨ e1.type = .flagtable
-  let (e2, af) :=
-    if isData ∧ !class31 ∧ ddo1.addAfNbits > 0 then
-      ({ e1 with afNbits := ddo1.addAfNbits.toNat % 256 }, ddo1.afList)
-    else (e1, n.af)
-  -- width / scale / reference
-  match e2.type with
-  | .ccitt =>
-    let e3 := if ddo1.redefineCcitt > 0 then { e2 with nbits := (ddo1.redefineCcitt : Int) * 8 } else e2
-    (ddo1, { n with flags := flags, enc := e3, af := af }, err1)
-  | .numeric =>
-    if class31 then (ddo1, { n with flags := flags, enc := e2, af := af }, err1)
-    else
-      let (e3, ddo2, err2) := applyNumeric ddo1 n e2
-      (ddo2, { n with flags := flags, enc := e3, af := af }, err1 || err2)
-  | _ => (ddo1, { n with flags := flags, enc := e2, af := af }, err1)
+  -- an operator flagged SKIPPED sits in a replication that occurs zero times: no effect
+  if Desc.f n.desc = 2 ∧ !n.flags.skipped then
+    let r := resolveTableC ddo (Desc.x n.desc) (Desc.y n.desc) edition
+    let e1 := match r.enc with
+      | some (t, nb) => { e0 with type := t, nbits := nb }
+      | none => e0
+    applyTail r.ddo n e1 (decide (r.rc < 0))
+  else applyTail ddo n e0 false
 
 /-- `(int)(float)v`: an `int` pushed through single precision (24 significant bits, ties to even) -/
 def f32RoundInt (v : Int) : Int :=
